@@ -201,9 +201,12 @@ def term_ghost_leak(term, dims):
     return worst
 
 
-def apply_mods(term, neg, scale):
-    """The user-side expression `[-](scale*)term` for matrix / vector kinds."""
+def apply_mods(term, neg, scale, fmt=None):
+    """The user-side expression `[-](scale*)term` for matrix / vector kinds,
+    optionally handed over in another sparse format."""
     t = term
+    if fmt and hasattr(t, "tocsr"):
+        t = {"csc": t.tocsc, "coo": t.tocoo, "csr": t.tocsr}[fmt]()
     if scale is not None:
         t = scale * t
     if neg:
